@@ -107,8 +107,11 @@ def search(chk, r, n, max_pto):
         for s in sfs:
             obs[f"{s}_{fl}"] = [dict(x=pts[0]["x"], Q2=pts[0]["Q2"])]
         th = cards.theory(PTO=pto, FNS=scheme, NfFF=nfff, TMC=tmc)
+        # the lepton polarisation enters the structure functions of the run, never the documented
+        # coefficients: the combination must hold for polarised beams too
+        pol = 0.0 if structured_case else float(r.choice([0.0, 0.0, -0.6, 0.35]))
         try:
-            out = realrun.run(th, cards.obs(obs, prDIS=process, ProjectileDIS=proj, interpolation_xgrid=cards.default_grid(10, 1e-2)))
+            out = realrun.run(th, cards.obs(obs, prDIS=process, ProjectileDIS=proj, PolarizationDIS=pol, interpolation_xgrid=cards.default_grid(10, 1e-2)))
         except Exception as e:
             chk.extra.setdefault("search_exceptions", {})
             k = f"{kind}/{process}/tmc{tmc}:{type(e).__name__}:{str(e)[:80]}"
@@ -124,9 +127,9 @@ def search(chk, r, n, max_pto):
             got = np.asarray(xs.orders[k][0]) if k in xs.orders else 0.0
             worst = max(worst, float(np.abs(got - exp).max()))
             scale = max(scale, float(np.abs(exp).max()))
-        sample = dict(kind=kind, obs=name, process=process, projectile=proj, pto=pto, TMC=tmc, FNS=scheme, point=pts[0], coeffs=[float(v) for v in c], maxdiff=worst, scale=scale, y_echoed=getattr(xs, "y", None))
+        sample = dict(kind=kind, obs=name, process=process, projectile=proj, polarization=pol, pto=pto, TMC=tmc, FNS=scheme, point=pts[0], coeffs=[float(v) for v in c], maxdiff=worst, scale=scale, y_echoed=getattr(xs, "y", None))
         ok = worst <= 1e-11 * max(scale, 1e-300) and getattr(xs, "y", None) == pts[0]["y"]
-        chk.search_case("xs_vs_sf_same_run", ok, what=f"{name} ({process},{proj},TMC={tmc}) != coefficient combination of the structure functions of the same run", data=sample, sample=sample, nontrivial=scale > 0)
+        chk.search_case("xs_vs_sf_same_run", ok, what=f"{name} ({process},{proj},P={pol},TMC={tmc}) != coefficient combination of the structure functions of the same run", data=sample, sample=sample, nontrivial=scale > 0)
 
 
 def check_xs(chk, oracle, th, obs_kw, kind, fl, pt, label):
